@@ -43,6 +43,8 @@ import (
 	"github.com/Cloud-Foundations/golib/pkg/log/nulllogger"
 	"github.com/Cloud-Foundations/keymaster/lib/paths"
 	"github.com/duo-labs/webauthn/webauthn"
+	"github.com/go-jose/go-jose/v4"
+	"github.com/go-jose/go-jose/v4/jwt"
 	"github.com/pquerna/otp/totp"
 	"github.com/tstranex/u2f"
 )
@@ -225,6 +227,7 @@ type c05Devs struct{ totp, u2f, wa, profile bool }
 type c05Cookie struct {
 	val        string
 	sub, level int
+	iatM, expM int64 // the iat / exp claims on the model's clock
 }
 
 type c05Tok struct {
@@ -246,33 +249,36 @@ type c05World struct {
 	admin  *http.Cookie
 	webui  int
 	// per history
-	cookies   []c05Cookie
-	tokens    []c05Tok
-	fresh     int
-	nowM      int64
-	txReal    map[int]string
-	txOwner   map[int]int
-	vcTx      map[int]int
-	chalBytes map[int][]byte
-	chalOwner map[int]int
-	chalAt    map[int]int64
-	curChal   map[int]int
-	otpVal    map[int]string
-	otpOwner  map[int]int
-	otpExp    map[int]int64
-	curOtp    map[int]int
-	proved    map[[2]int]bool
-	accepted  map[string]bool
-	realStep  int64
-	cert      int  // the next request carries a verified keymaster client certificate of this user (0: none)
-	fault     bool // profile writes fail during the next request
-	chains    map[int][][]*x509.Certificate
-	dirty     bool // stored profiles may differ from the pristine ones
-	savedFor  int  // configuration the stored profiles were written for
-	cfgID     int
-	ops       []string
-	outs      []string
-	human     []string
+	cookies        []c05Cookie
+	tokens         []c05Tok
+	fresh          int
+	nowM           int64
+	txReal         map[int]string
+	txOwner        map[int]int
+	vcTx           map[int]int
+	vcAt           map[int]int64 // model time at which the push transaction of that cookie value was started
+	chalBytes      map[int][]byte
+	chalOwner      map[int]int
+	chalAt         map[int]int64
+	curChal        map[int]int
+	otpVal         map[int]string
+	otpOwner       map[int]int
+	otpExp         map[int]int64
+	curOtp         map[int]int
+	proved         map[[2]int]bool
+	provedAt       map[[2]int]int64 // model time of the latest verification of (user, factor)
+	accepted       map[string]bool
+	realStep       int64
+	expiredSession bool // the last auth cookie attached to the current request is expired
+	cert           int  // the next request carries a verified keymaster client certificate of this user (0: none)
+	fault          bool // profile writes fail during the next request
+	chains         map[int][][]*x509.Certificate
+	dirty          bool // stored profiles may differ from the pristine ones
+	savedFor       int  // configuration the stored profiles were written for
+	cfgID          int
+	ops            []string
+	outs           []string
+	human          []string
 }
 
 // A CLI token's expiry is a signed claim the harness cannot move: tokens that must stay valid live longer
@@ -336,9 +342,11 @@ func (w *c05World) reset() {
 	}
 	w.cookies, w.tokens, w.fresh, w.nowM = nil, nil, 0, 0
 	w.txReal, w.txOwner, w.vcTx = map[int]string{}, map[int]int{}, map[int]int{}
+	w.vcAt = map[int]int64{}
 	w.chalBytes, w.chalOwner, w.chalAt, w.curChal = map[int][]byte{}, map[int]int{}, map[int]int64{}, map[int]int{}
 	w.otpVal, w.otpOwner, w.otpExp, w.curOtp = map[int]string{}, map[int]int{}, map[int]int64{}, map[int]int{}
 	w.proved, w.accepted = map[[2]int]bool{}, map[string]bool{}
+	w.provedAt = map[[2]int]int64{}
 	w.cert, w.fault = 0, false
 	if w.chains == nil {
 		w.chains = map[int][][]*x509.Certificate{}
@@ -346,6 +354,59 @@ func (w *c05World) reset() {
 	w.realStep = time.Now().Unix() / 30
 	w.ops, w.outs, w.human = nil, nil, nil
 	w.tick(3000) // the model's clock starts at 0; every history starts at step 100
+}
+
+// ghost: factor f was verified for user u, now
+func (w *c05World) prove(u, f int) {
+	w.proved[[2]int{u, f}] = true
+	w.provedAt[[2]int{u, f}] = w.nowM
+}
+
+// a signed token (auth cookie or CLI token) as it would be had it been minted dt seconds earlier: the
+// same claims with iat / nbf / exp moved back, signed by the server's key the way jwt.go signs
+func (w *c05World) remint(val string, dt int64) string {
+	parts := strings.Split(val, ".")
+	if len(parts) != 3 {
+		return val
+	}
+	raw, err := base64.RawURLEncoding.DecodeString(parts[1])
+	if err != nil {
+		w.t.Fatalf("remint: %v", err)
+	}
+	claims := map[string]interface{}{}
+	dec := json.NewDecoder(bytes.NewReader(raw))
+	dec.UseNumber()
+	if err := dec.Decode(&claims); err != nil {
+		w.t.Fatalf("remint: %v", err)
+	}
+	for k, x := range claims { // go-jose's encoder does not know json.Number
+		if n, ok := x.(json.Number); ok {
+			v, err := n.Int64()
+			if err != nil {
+				w.t.Fatalf("remint: claim %s = %s", k, n)
+			}
+			claims[k] = v
+		}
+	}
+	for _, k := range []string{"iat", "nbf", "exp", "auth_exp"} {
+		if v, ok := claims[k].(int64); ok {
+			claims[k] = v - dt
+		}
+	}
+	st := w.env.state
+	alg, err := publicToPreferedJoseSigAlgo(st.Signer.Public())
+	if err != nil {
+		w.t.Fatal(err)
+	}
+	signer, err := jose.NewSigner(jose.SigningKey{Algorithm: alg, Key: st.Signer}, (&jose.SignerOptions{}).WithType("JWT"))
+	if err != nil {
+		w.t.Fatal(err)
+	}
+	out, err := jwt.Signed(signer).Claims(claims).Serialize()
+	if err != nil {
+		w.t.Fatal(err)
+	}
+	return out
 }
 
 // ---- simulated time: move what the code reads
@@ -383,6 +444,16 @@ func (w *c05World) tick(dt int64) {
 	}
 	st := w.env.state
 	d := time.Duration(dt) * time.Second
+	// what the clients hold: every auth cookie and CLI token ages by dt
+	for i := range w.cookies {
+		w.cookies[i].val = w.remint(w.cookies[i].val, dt)
+		if info, err := st.getAuthInfoFromAuthJWT(w.cookies[i].val); err != nil || info.AuthType != w.cookies[i].level || c05UserIdx[info.Username] != w.cookies[i].sub {
+			w.t.Fatalf("re-signed cookie does not verify as before: %v %+v", err, info)
+		}
+	}
+	for i := range w.tokens {
+		w.tokens[i].val = w.remint(w.tokens[i].val, dt)
+	}
 	w.shiftTotp(dt / 30)
 	for u := 1; u <= 2; u++ {
 		if !w.devs[u].profile {
@@ -396,6 +467,10 @@ func (w *c05World) tick(dt int64) {
 		}
 	}
 	st.Mutex.Lock()
+	for v, e := range st.vipPushCookie {
+		e.ExpiresAt = e.ExpiresAt.Add(-d)
+		st.vipPushCookie[v] = e
+	}
 	for u, la := range st.localAuthData {
 		la.ExpiresAt = la.ExpiresAt.Add(-d)
 		if la.U2fAuthChallenge != nil {
@@ -432,11 +507,26 @@ func (w *c05World) modelStep() int64 { return w.nowM / 30 }
 // authenticate the request as: with a mask that admits certificates the certificate's user at level
 // KeymasterX509, else the user of the LAST cookie attached
 func (w *c05World) attachMask(req *http.Request, cs []int, anyMask bool) (sessionUser int, sessionLevel int) {
+	w.expiredSession = false
 	for _, i := range cs {
+		w.expiredSession = false
 		if i >= 0 && i < len(w.cookies) {
 			req.AddCookie(&http.Cookie{Name: authCookieName, Value: w.cookies[i].val})
 			sessionUser, sessionLevel = w.cookies[i].sub, w.cookies[i].level // the last one attached names the session
+			if w.cookies[i].expM <= w.nowM {
+				sessionUser, sessionLevel = 0, 0 // ... unless it has expired
+				w.expiredSession = true
+				w.res.bump("request:expired-cookie-attached")
+			}
+		} else {
+			// an index that names nothing issued: a value that does not verify
+			req.AddCookie(&http.Cookie{Name: authCookieName, Value: "eyJhbGciOiJFUzI1NiIsInR5cCI6IkpXVCJ9.eyJzdWIiOiJqdW5rIn0.anVuaw"})
+			sessionUser, sessionLevel = 0, 0
+			w.res.bump("request:junk-cookie-attached")
 		}
+	}
+	if len(cs) > 1 {
+		w.res.bump("request:several-auth-cookies")
 	}
 	if w.cert != 0 {
 		ch, ok := w.chains[w.cert]
@@ -445,7 +535,7 @@ func (w *c05World) attachMask(req *http.Request, cs []int, anyMask bool) (sessio
 			w.chains[w.cert] = ch
 		}
 		withTLS(req, ch, "")
-		w.proved[[2]int{w.cert, c05X509}] = true // presenting the certificate proves its key
+		w.prove(w.cert, c05X509) // presenting the certificate proves its key
 		if anyMask {
 			sessionUser, sessionLevel = w.cert, 1<<c05X509
 		}
@@ -510,9 +600,53 @@ func (w *c05World) emitted(rr *httptest.ResponseRecorder) []c05Cookie {
 			w.res.hit(verifHit{Key: "C05:harness:undecodable-cookie", Oracle: "harness", What: "the server emitted an auth cookie that does not verify: " + err.Error(), Case: w.human})
 			continue
 		}
-		out = append(out, c05Cookie{val: v, sub: c05UserIdx[info.Username], level: info.AuthType})
+		c := c05Cookie{val: v, sub: c05UserIdx[info.Username], level: info.AuthType}
+		// the iat claim on the model's clock: the instant of one of the sessions that exist (cookies keep
+		// their iat when re-signed) or now; real time passes while a history runs, hence the snapping
+		rawIat := w.nowM - (time.Now().Unix() - info.IssuedAt.Unix())
+		best, found := int64(0), false
+		cands := []int64{w.nowM}
+		for _, o := range w.cookies {
+			cands = append(cands, o.iatM)
+		}
+		for _, cand := range cands {
+			if d := cand - rawIat; d >= -14 && d <= 14 && (!found || abs64(d) < abs64(best-rawIat)) {
+				best, found = cand, true
+			}
+		}
+		if !found {
+			w.res.hit(verifHit{Key: "C05:harness:cookie-iat", Oracle: "harness", What: fmt.Sprintf("emitted cookie with iat %d s (model clock %d) that is neither now nor the iat of an issued cookie", rawIat, w.nowM), Case: w.human})
+			best = rawIat
+		}
+		c.iatM = best
+		c.expM = c.iatM + (info.ExpiresAt.Unix() - info.IssuedAt.Unix())
+		// a CLI cookie lives as long as its token ("time.Until(exp)" truncates the real remainder), and a
+		// re-signed cookie keeps the exp of the one it was made from
+		expCands := []int64{}
+		for _, tk := range w.tokens {
+			expCands = append(expCands, tk.expM)
+		}
+		for _, o := range w.cookies {
+			if o.iatM == c.iatM && o.sub == c.sub {
+				expCands = append(expCands, o.expM)
+			}
+		}
+		for _, cand := range expCands {
+			if d := cand - c.expM; d > 0 && d <= 14 {
+				c.expM = cand
+				break
+			}
+		}
+		out = append(out, c)
 	}
 	return out
+}
+
+func abs64(x int64) int64 {
+	if x < 0 {
+		return -x
+	}
+	return x
 }
 
 // record the step; evaluate the oracles on what was emitted
@@ -528,7 +662,7 @@ func (w *c05World) record(kind, coqOp, human string, sessionUser int, ok bool, e
 	w.human = append(w.human, human)
 	out := "None"
 	if len(em) > 0 {
-		out = fmt.Sprintf("Some (%d%%N, %d%%N)", em[0].sub, em[0].level)
+		out = fmt.Sprintf("Some (%d%%N, %d%%N, %d%%Z, %d%%Z)", em[0].sub, em[0].level, em[0].iatM, em[0].expM)
 	}
 	if len(em) > 1 {
 		w.res.hit(verifHit{Key: "C05:harness:two-cookies:" + kind, Oracle: "harness", What: "one response carried two auth cookies", Case: w.human})
@@ -543,11 +677,24 @@ func (w *c05World) record(kind, coqOp, human string, sessionUser int, ok bool, e
 					Case: append([]string{}, w.human...), Observed: map[string]interface{}{"subject": w.names[c.sub], "level": c.level}})
 			}
 		}
+		// ... and verified during the session the cookie belongs to: not before its iat
+		for _, f := range c05Factors {
+			if at, ok := w.provedAt[[2]int{c.sub, f}]; c.level&(1<<uint(f)) != 0 && ok && at < c.iatM {
+				w.res.hit(verifHit{Key: fmt.Sprintf("C05:stale-factor:%s:f%d", kind, f), Oracle: "a session gains a factor only by a verification made during that session (not before its iat)",
+					Kind: "history", What: fmt.Sprintf("%s emitted a cookie for %s with level %#x and iat %d: factor bit %d was last verified for %s at %d, before that session began", kind, w.names[c.sub], c.level, c.iatM, f, w.names[c.sub], at),
+					Case: append([]string{}, w.human...), Observed: map[string]interface{}{"subject": w.names[c.sub], "level": c.level, "iat": c.iatM, "verified_at": at}})
+			}
+		}
 		if kind != "Login" && sessionUser != 0 && c.sub != sessionUser {
 			w.res.hit(verifHit{Key: "C05:subject-changed:" + kind, Oracle: "a request of one user's session never yields a cookie for another user",
 				Kind: "history", What: fmt.Sprintf("%s in a session of %s emitted a cookie for %s", kind, w.names[sessionUser], w.names[c.sub]), Case: append([]string{}, w.human...)})
 		}
 	}
+	if w.expiredSession && w.cert == 0 && kind != "Login" && (len(em) > 0 || (ok && kind != "Logout")) {
+		w.res.hit(verifHit{Key: "C05:expired:cookie:" + kind, Oracle: "an expired session cookie never works", Kind: "history",
+			What: fmt.Sprintf("%s succeeded although the auth cookie checkAuth looks at (the last one) is past its exp claim", kind), Case: append([]string{}, w.human...)})
+	}
+	w.expiredSession = false
 	w.res.bump("op:" + kind)
 	if len(em) > 0 {
 		w.res.bump("upgrade:" + kind)
@@ -598,7 +745,7 @@ func (w *c05World) login(u int, ok bool) {
 	rr := w.serve(verifNewRequest("POST", "/api/v0/login", f))
 	em := w.emitted(rr)
 	if ok {
-		w.proved[[2]int{u, c05PW}] = true
+		w.prove(u, c05PW)
 	}
 	w.record("Login", fmt.Sprintf("Login %d %s", u, coqBool(ok)), fmt.Sprintf("Login(%s,%v)", w.names[u], ok), 0, rr.Code < 400, em)
 }
@@ -616,7 +763,7 @@ func (w *c05World) vipOtp(cs []int, owner int, good bool) {
 	req := verifNewRequest("POST", vipAuthPath, f)
 	su, _ := w.attach(req, cs)
 	if good && su == owner {
-		w.proved[[2]int{owner, c05VIP}] = true
+		w.prove(owner, c05VIP)
 	}
 	rr := w.serve(req)
 	code := "VBad"
@@ -646,6 +793,7 @@ func (w *c05World) pushStart(cs []int, vc int) {
 		w.txReal[w.fresh] = last
 		w.txOwner[w.fresh] = c05UserIdx[lastUser]
 		w.vcTx[vc] = w.fresh
+		w.vcAt[vc] = w.nowM
 		w.fresh++
 	} else if ok != started {
 		w.res.hit(verifHit{Key: "C05:harness:pushstart", Oracle: "harness", What: fmt.Sprintf("push start answered %d, transaction started=%v", rr.Code, started), Case: w.human})
@@ -659,7 +807,7 @@ func (w *c05World) approve(tx int) {
 		w.vip.approved[real] = true
 		w.vip.mu.Unlock()
 		// the owner of the phone approves: that user has proved the factor
-		w.proved[[2]int{w.txOwner[tx], c05VIP}] = true
+		w.prove(w.txOwner[tx], c05VIP)
 	}
 	w.ops = append(w.ops, fmt.Sprintf("Approve %d", tx))
 	w.outs = append(w.outs, "(true, None)")
@@ -671,8 +819,22 @@ func (w *c05World) poll(cs []int, vc int) {
 	req := verifNewRequest("POST", vipPollCheckPath, url.Values{})
 	su, _ := w.attach(req, cs)
 	req.AddCookie(&http.Cookie{Name: vipTransactionCookieName, Value: fmt.Sprintf("vc%d", vc)})
+	// the service confirms now that the user it sent the push to has approved
+	if tx, ok := w.vcTx[vc]; ok && su != 0 && w.txOwner[tx] == su && w.nowM < w.vcAt[vc]+int64(maxAgeSecondsVIPCookie) {
+		w.vip.mu.Lock()
+		approved := w.vip.approved[w.txReal[tx]]
+		w.vip.mu.Unlock()
+		if approved {
+			w.prove(su, c05VIP)
+		}
+	}
 	rr := w.serve(req)
-	w.record("Poll", fmt.Sprintf("Poll %s %d", c05CoqList(cs), vc), fmt.Sprintf("Poll%v(vc%d)", cs, vc), su, rr.Code < 400, w.emitted(rr))
+	em := w.emitted(rr)
+	if at, ok := w.vcAt[vc]; ok && len(em) > 0 && w.nowM >= at+int64(maxAgeSecondsVIPCookie) {
+		w.res.hit(verifHit{Key: "C05:expired:Poll", Oracle: "an expired one-time value never works", Kind: "history",
+			What: fmt.Sprintf("a push transaction started %d s ago (lifetime %d s) still raised the level", w.nowM-at, int64(maxAgeSecondsVIPCookie)), Case: append(append([]string{}, w.human...), fmt.Sprintf("Poll%v(vc%d)", cs, vc))})
+	}
+	w.record("Poll", fmt.Sprintf("Poll %s %d", c05CoqList(cs), vc), fmt.Sprintf("Poll%v(vc%d)", cs, vc), su, rr.Code < 400, em)
 }
 
 // owner = 0: a code that matches nothing
@@ -712,7 +874,7 @@ func (w *c05World) totp(cs []int, owner int, step int64) {
 	su, _ := w.attach(req, cs)
 	inWindow := step >= w.modelStep()-1 && step <= w.modelStep()+1
 	if owner != 0 && owner == su && inWindow && w.devs[su].totp {
-		w.proved[[2]int{owner, c05TOTP}] = true
+		w.prove(owner, c05TOTP)
 	}
 	rr := w.serve(req)
 	em := w.emitted(rr)
@@ -804,9 +966,9 @@ func (w *c05World) finish(kind string, cs []int, owner int, wa bool, chal int) {
 	su, _ := w.attach(req, cs)
 	// the environment's positive answer: owner's key signed the challenge pending for owner, in owner's session
 	if known && owner == su && w.chalOwner[chal] == owner && w.curChal[owner] == chal && ((wa && w.devs[owner].wa) || (!wa && w.devs[owner].u2f)) {
-		w.proved[[2]int{owner, c05U2F}] = true
+		w.prove(owner, c05U2F)
 		if kind == "WaFinish" && wa {
-			w.proved[[2]int{owner, c05FIDO2}] = true
+			w.prove(owner, c05FIDO2)
 		}
 	}
 	rr := w.serve(req)
@@ -865,7 +1027,7 @@ func (w *c05World) bootstrap(cs []int, serial int) {
 	req := verifNewRequest("POST", bootstrapOtpAuthPath, f)
 	su, _ := w.attach(req, cs)
 	if owner != 0 && owner == su && w.curOtp[owner] == serial && w.nowM < w.otpExp[serial] && !w.accepted[fmt.Sprintf("boot:%d", serial)] {
-		w.proved[[2]int{owner, c05BOOT}] = true
+		w.prove(owner, c05BOOT)
 	}
 	rr := w.serve(req)
 	em := w.emitted(rr)
@@ -907,7 +1069,7 @@ func (w *c05World) sendDoc(cs []int, tk int) {
 	req := verifNewRequest("GET", paths.SendAuthDocument, f)
 	su, sl := w.attachMask(req, cs, false)
 	if owner != 0 && owner == su && sl&w.webui != 0 && w.nowM < w.tokens[tk].expM {
-		w.proved[[2]int{owner, c05CLI}] = true
+		w.prove(owner, c05CLI)
 	}
 	rr := w.serve(req)
 	em := w.emitted(rr)
@@ -972,6 +1134,12 @@ func (w *c05World) alphabet() []func() {
 		func() { w.with(0, true, func() { w.bootstrap([]int{1}, otp(2)) }) },
 		func() { w.with(1, false, func() { w.poll([]int{1}, 0) }) },
 		func() { w.with(1, false, func() { w.vipOtp([]int{1}, 1, true) }) },
+		// several sessions of one user, attached together in both orders; junk next to a valid cookie
+		func() { w.tick(3600); w.login(1, true) }, // an hour later alice logs in again
+		func() { w.vipOtp([]int{last(), 2}, 1, true) },
+		func() { w.vipOtp([]int{2, last()}, 1, true) },
+		func() { w.totp([]int{99, 0}, 1, w.modelStep()) },
+		func() { w.totp([]int{0, 99}, 1, w.modelStep()) },
 	}
 }
 
@@ -1036,6 +1204,13 @@ func (w *c05World) randomOpPlain(rng *mrand.Rand) {
 				return []int{other[rng.Intn(len(other))], own[rng.Intn(len(own))]}
 			case x == 2 && len(other) > 0 && len(own) > 0:
 				return []int{own[rng.Intn(len(own))], other[rng.Intn(len(other))]}
+			case x == 3 && len(own) > 1: // two sessions of the same user
+				return []int{own[rng.Intn(len(own))], own[rng.Intn(len(own))]}
+			case x == 4 && len(own) > 0 && rng.Intn(2) == 0: // junk next to an own cookie, either order
+				if rng.Intn(2) == 0 {
+					return []int{n + 5, own[rng.Intn(len(own))]}
+				}
+				return []int{own[rng.Intn(len(own))], n + 5}
 			case len(own) > 0:
 				return []int{own[len(own)-1-rng.Intn(1+len(own)/2)]}
 			}
@@ -1091,7 +1266,7 @@ func (w *c05World) randomOpPlain(rng *mrand.Rand) {
 		}
 	}
 	switch rng.Intn(20) {
-	case 0:
+	case 0, 19:
 		w.login(user(), rng.Intn(5) != 0)
 	case 1:
 		w.logout(pickCs())
@@ -1132,7 +1307,7 @@ func (w *c05World) randomOpPlain(rng *mrand.Rand) {
 	case 18:
 		w.sendDoc(pickCs(), rng.Intn(len(w.tokens)+1))
 	default:
-		w.tick([]int64{30, 30, 60, 3600}[rng.Intn(4)])
+		w.tick([]int64{30, 30, 60, 3600, 3600, 6 * 3600}[rng.Intn(6)])
 	}
 }
 
@@ -1237,6 +1412,65 @@ func (w *c05World) targeted() []func() {
 			w.bootstrap([]int{1}, w.curOtp[2])
 			w.issueOtp(1, 3600)
 			w.issueOtp(2, 90000)
+		},
+		func() { // a push transaction lives two minutes: polled before and after, started again afterwards
+			w.pushStart([]int{0}, 0)
+			w.approve(w.vcTx[0])
+			w.tick(90)
+			w.poll([]int{0}, 0)
+			w.tick(30)
+			w.poll([]int{0}, 0)
+			w.tick(180)
+			w.poll([]int{0}, 0)
+			w.pushStart([]int{0}, 0) // the cookie value is free again
+			w.poll([]int{0}, 0)
+			w.approve(w.vcTx[0])
+			w.poll([]int{0}, 0)
+		},
+		func() { // two sessions of one user attached together: which one comes back, with which factors
+			w.totp([]int{0}, 1, w.modelStep()) // cookie 2: alice, password+TOTP, old session
+			w.tick(3600)
+			w.login(1, true) // cookie 3: alice, password, new session
+			w.u2fBegin([]int{3, 2})
+			w.finish("U2fFinish", []int{3, 2}, 1, false, w.curChal[1])
+			w.u2fBegin([]int{2, 3})
+			w.finish("U2fFinish", []int{2, 3}, 1, false, w.curChal[1])
+			w.vipOtp([]int{3, 2}, 1, true)
+			w.vipOtp([]int{2, 3}, 1, true)
+			w.pushStart([]int{3, 2}, 0)
+			w.approve(w.vcTx[0])
+			w.poll([]int{3, 2}, 0)
+			w.poll([]int{2, 3}, 0)
+			w.totp([]int{3, 2}, 1, w.modelStep()+1)
+		},
+		func() { // the same for the bootstrap OTP of a user without devices, and with junk next to the cookie
+			w.issueOtp(2, 3600)
+			w.bootstrap([]int{1}, w.curOtp[2]) // cookie 2: bob, password+bootstrap
+			w.tick(3600)
+			w.login(2, true) // cookie 3: bob, password
+			w.vipOtp([]int{3, 2}, 2, true)
+			w.vipOtp([]int{2, 3}, 2, true)
+			w.vipOtp([]int{99, 3}, 2, true)
+			w.vipOtp([]int{3, 99}, 2, true)
+			w.totp([]int{99, 0}, 1, w.modelStep())
+			w.totp([]int{0, 99}, 1, w.modelStep())
+			w.totp([]int{1, 99, 0}, 1, w.modelStep()+1)
+		},
+		func() { // session cookies expire (16 h): alone, before and after a fresh one
+			w.tick(15 * 3600)
+			w.tick(3570)
+			w.totp([]int{0}, 1, w.modelStep()) // 30 s to go: works; the re-signed cookie keeps exp
+			w.tick(30)
+			w.totp([]int{0}, 1, w.modelStep())
+			w.vipOtp([]int{2}, 1, true)
+			w.u2fBegin([]int{0})
+			w.login(1, true) // cookie 3
+			w.vipOtp([]int{0, 3}, 1, true)
+			w.vipOtp([]int{3, 0}, 1, true)
+			w.vipOtp([]int{2, 3}, 1, true)
+			w.with(1, false, func() { w.vipOtp([]int{0}, 1, true) }) // certificate + expired own cookie
+			w.showTok([]int{len(w.cookies) - 1}, c05TokenLife)
+			w.sendDoc([]int{len(w.cookies) - 1}, 0)
 		},
 		func() { // CLI token: needs a second factor session; other user's token; expired token
 			w.showTok([]int{0}, c05TokenLife)
@@ -1413,8 +1647,9 @@ func TestVerif_C05(t *testing.T) {
 	}
 	sb.WriteString(fmt.Sprintf("Definition webui_mask : N := %d.\n", webui))
 	sb.WriteString("Definition cfg_of (i : N) : config := fixed (if i =? 0 then devs0 else devs1) webui_mask.\n")
-	sb.WriteString("Definition bad (h : N * list op * list (bool * option (N * N))) : bool :=\n  let '(i, ops, obs) := h in negb (match obs_agree (run_obs (cfg_of i) init ops) obs 0 with [] => true | _ => false end).\n")
-	sb.WriteString("Definition cases : list (N * list op * list (bool * option (N * N))) := [\n")
+	sb.WriteString(fmt.Sprintf("(* maxAgeSecondsAuthCookie / maxAgeSecondsVIPCookie of the tree must be the lifetimes the theorems are stated with *)\nDefinition life_ok : bool := ((%d =? cookie_life (cfg_of 0)) && (%d =? vip_life (cfg_of 0)))%%Z.\n", int64(maxAgeSecondsAuthCookie), int64(maxAgeSecondsVIPCookie)))
+	sb.WriteString("Definition bad (h : N * list op * list (bool * option (N * N * Z * Z))) : bool :=\n  let '(i, ops, obs) := h in negb (life_ok && match obs_agree (run_obs (cfg_of i) init ops) obs 0 with [] => true | _ => false end).\n")
+	sb.WriteString("Definition cases : list (N * list op * list (bool * option (N * N * Z * Z))) := [\n")
 	var idx strings.Builder
 	for i, h := range all {
 		sep := ";"
